@@ -478,7 +478,11 @@ func (d *driver) run(o Op, f *FaultSpec) *StepObs {
 		if o.RPC {
 			ch, err = d.runAndWaitRPC(lctx, &o)
 		} else {
-			_, ch, err = w.C.RunAndWait(lctx, d.deployOpts(&o), nil)
+			var in chan []byte
+			if o.Stdin {
+				in = make(chan []byte) // the caller's input: kept open (never written, never closed) for the whole run
+			}
+			_, ch, err = w.C.RunAndWait(lctx, d.deployOpts(&o), in)
 		}
 		if err == nil {
 		loopl:
